@@ -20,7 +20,7 @@ fn single(plan: Plan, universe: u8, tier: Tier) -> Box<dyn Config> {
     Box::new(BfsConfig::new(label, SetHarness::new(c), lim(tier)))
 }
 
-fn pairs(pa: Plan, ua: u8, pb: Plan, ub: u8, alt: bool, tier: Tier) -> Box<dyn Config> {
+pub fn pairs(pa: Plan, ua: u8, pb: Plan, ub: u8, alt: bool, tier: Tier) -> Box<dyn Config> {
     // no symmetry reduction here: which ids two sets share is exactly what the algebra depends on
     let w = super::width();
     let (big, gw, fill): (u8, u8, u8) = if w == 16 { (30, 16, 28) } else { (16, 8, 14) };
